@@ -89,6 +89,24 @@ CHECKS = {
         "1..3 level 3D plotfiles x two origins x three cell shapes x {name, name list, slice}; points outside every face must be refused.",
    note="Payload affine in the cell index (distinct per level and field) so the tool's spline evaluation is exact at cell centres; tolerance 1e-6 against separations >= 1.",
    tech=T),
+ "C13": dict(cat="fault_enumeration", design="4/C13",
+   text="Every tool entry point (20: API and main() with sys.argv for colander, combine, chef, mandoline 2D/3D, whip, pestle, taste, menu, "
+        "minuterie, marinate, chk2plt) x explicit / default output x eight path forms (relative, ./x, trailing slash, absolute, absolute + "
+        "slash, cwd = parent or elsewhere) is run plain, on three deliberately broken inputs (missing binary, missing level header, unknown "
+        "field) and once per counted write point (open-for-write, write, mkdir, rmtree, rename, remove) with ENOSPC injected there. "
+        "A sys.addaudithook audit of every write-class event must show none inside an input tree and all under the requested output or "
+        "the tool's documented default location; input snapshots (content, mode, mtime) must be unchanged; a failing run must end in an "
+        "exception or non-zero exit (a fault absorbed by a library retry counts as failing only if the output differs from the unfaulted run).",
+   note="In-process controlled pool so that worker writes are intercepted; one fault per run; third-party bookkeeping (matplotlib config dir) is "
+        "redirected to its own scratch directory and excluded; 'output = input' is left out (the statement contradicts itself there).",
+   tech="exhaustive fault injection at every write point + write audit of the real code"),
+ "C18": dict(cat="model_checking", design="4/C18",
+   text="minuterie.main, Menu in four modes, marinate.main + unpickle are executed on plotfiles whose 1..5 field names come from an alphabet "
+        "built to collide (species, unknown names that are substrings or regexes of later ones, odd/even counts), 2D/3D, 1..3 levels, "
+        "negative / zero / tiny / infinite times and extrema; and every ordered pair of menu calls on two plotfiles x 4x4 modes is executed "
+        "in one process and compared with the same call on pristine process state (explicit history exploration of the class-level state).",
+   note="Process-lifetime state of menu is the class attribute Menu.field_info, snapshot/restored by the harness to emulate a fresh process; NaN extrema excluded.",
+   tech="bounded-exhaustive exploration incl. depth-2 operation histories against a reference model"),
 }
 
 NOT_YET = {}
